@@ -28,6 +28,10 @@ var files = []genFile{
 	{"AbortOps.lean", genAbortOps},
 	{"VmFields.lean", genVmFields},
 	{"Limits.lean", genLimits},
+	{"Adapters.lean", genAdapters},
+	{"EncTags.lean", genEncTags},
+	{"EncBuiltins.lean", genEncBuiltins},
+	{"EncDispatch.lean", genEncDispatch},
 }
 
 func main() {
